@@ -264,12 +264,25 @@ def aspecOr : ASpec → ASpec → Option ASpec
   | .ver a, .ver b => (a.or b).map .ver
   | _, _ => none
 
-/-- `_normalize_python_version_specifier` (single.py:432-454, after the `fix:`) -/
+/-- `while len(splitted) > 2 and splitted[-1].isdigit() and int(splitted[-1]) == 0: splitted.pop()` -/
+def dropZeroSegs (l : List String) : List String :=
+  let rec go : List String → Nat → List String
+    | r, 0 => r
+    | [], _ => []
+    | x :: rest, n + 1 =>
+      if x.toNat? == some 0 then go rest n else x :: rest
+  (go l.reverse (l.length - 2)).reverse
+
+/-- `_normalize_python_version_specifier` (single.py:432-454, after the `fix:`s) -/
 def normalizePythonVersion (a : Atom) : Option ASpec :=
   if a.op == .in_ || a.op == .notIn then some a.spec
   else
     let splitted := (a.value.splitOn ".").map trimS
-    if splitted.length > 2 || splitted.contains "*" then some a.spec
+    if splitted.contains "*" then some a.spec
+    else
+    -- the `fix:`: python_version has two components, "3.8.0" compares like "3.8" (not for `~=`)
+    let splitted := if a.op != .compat then dropZeroSegs splitted else splitted
+    if splitted.length > 2 then some a.spec
     else
       let splitted := if splitted.length == 1 && a.op != .compat then splitted ++ ["0"] else splitted
       let bump (l : List String) : Option (List String) :=
